@@ -287,6 +287,62 @@ def run_cases():
     return res
 
 
+# ------------------------------------------------------------------ repeated calls with the caller's own bound arrays
+
+def args_check(a, lb, ub, dtype):
+    """span(array, lb, ub) called twice with the SAME ndarray objects (as with space.lb / space.ub):
+    the arguments must come back bit-identical and the second result must equal the first and obey the oracle.
+    -> (key, message) or None"""
+    arr = np.array(a, dtype=float)
+    lbn = np.array(lb, dtype=dtype)
+    ubn = np.array(ub, dtype=dtype)
+    snap = [x.tobytes() for x in (arr, lbn, ubn)]
+    lb0, ub0 = [float(v) for v in lbn], [float(v) for v in ubn]
+    outs = []
+    for call in (1, 2):
+        try:
+            out = np.array(h.span(arr, lbn, ubn), dtype=float, copy=True)
+        except Exception as ex:  # noqa: BLE001
+            return ('span:second-call' if call == 2 else 'span:raises', 'call %d raised %s: %s' % (call, type(ex).__name__, ex))
+        for nm, x, b in zip(('array', 'lb', 'ub'), (arr, lbn, ubn), snap):
+            if x.tobytes() != b:
+                return ('span:mutates-arguments', 'span overwrote its argument `%s` (call %d): now %r' % (nm, call, x.tolist()))
+        outs.append(out)
+    if outs[0].tobytes() != outs[1].tobytes():
+        return ('span:second-call', 'second call with the same arguments returns %r, the first returned %r' % (outs[1].tolist(), outs[0].tolist()))
+    for j, v in enumerate(float(x) for x in outs[1]):
+        row = [float(x) for x in a[j]]
+        bad = None
+        if not (lb0[j] <= v <= ub0[j]):
+            bad = ('R', 'second call: entry %d = %r outside [%r, %r]' % (j, v, lb0[j], ub0[j]))
+        elif all(x == 0.0 for x in row) and v != lb0[j]:
+            bad = ('Z', 'second call: zero row %d maps to %r, lower bound is %r' % (j, v, lb0[j]))
+        elif all(x == 1.0 for x in row) and v != ub0[j]:
+            bad = ('O', 'second call: all-ones row %d maps to %r, upper bound is %r' % (j, v, ub0[j]))
+        if bad and classify(bad[0], j, [[float(x) for x in rw] for rw in a], lb0, ub0, v) not in ('span:ones-row:excess<=2ulp', 'span:range-overflow'):
+            return ('span:second-call', bad[1])
+    return None
+
+
+def args_cases():
+    r = hlib.rng('c13args')
+    res = []
+    reps = 4 if hlib.QUICK else 80
+    for n, d in [(1, 1), (2, 3), (3, 2), (4, 4)]:
+        for bc, dtype in [('generic', 'float64'), ('negative', 'float64'), ('wide', 'float64'), ('int', 'int64'), ('int', 'float64')]:
+            for ac in ('zeros', 'ones', 'mixed', 'uniform'):
+                for _ in range(reps):
+                    lb, ub = bounds(r, n, bc)
+                    if all(float(v) == 0.0 for v in lb):
+                        lb = [v - 1 for v in lb]
+                    a = arrays(r, n, d, ac)
+                    bad = args_check(a, lb, ub, dtype)
+                    res.append({'array_class': ac, 'bounds_class': bc, 'dtype': dtype, 'a': [[key(v) for v in row] for row in a],
+                                'lb': [key(v) for v in lb], 'ub': [key(v) for v in ub],
+                                'key': bad[0] if bad else None, 'oracle': bad[1] if bad else None})
+    return res
+
+
 def float_ratio(v):
     nn, dd = float(v).as_integer_ratio()
     return [str(nn), str(dd)]
@@ -328,6 +384,7 @@ def main():
         if cnt.get(c['cls'], 0) < per and len(res['coq']) < want:
             cnt[c['cls']] = cnt.get(c['cls'], 0) + 1
             res['coq'].append(c)
+    res['args'] = args_cases()
     res['space'] = space_cases()
     res['runs'] = run_cases()
     hlib.emit(res)
